@@ -4,17 +4,25 @@ import MaltModel.Func.Target
 statement of what the real pass guarantees about the annotations it consumes.
 
 **Fragment** (`AStmt`): the jump-free language that reaches `ControlFlowTransformer` — assign, expression
-statement, pass, raise, `if`/`while`/`for` (with the optional EXTRA_LOOP_TEST), and `return`; no
-`break`/`continue` (lowered by the jump passes), no `try`/`with` (not covered by the proof; stated in the
-theorem names).  `return` is only meaningful at the top level of the function body (`RetTop`).
+statement, pass, raise, `if`/`while`/`for` (with the optional EXTRA_LOOP_TEST), `return`, and — as
+**pass-through** statements, which the pass does not functionalise but whose blocks may contain `if`/`while`/`for` —
+`with` and `try` (handlers `except E<tag>` + `finally`), with exactly the semantics of `Sem.withS`/`Sem.tryS`.
+No `break`/`continue` (lowered by the jump passes).  `return` is only meaningful at the top level of the function
+body (`retTopB`): the lowered return is the last top-level statement; the blocks of every compound statement,
+including `with`/`try`, contain none.
 
 Every statement carries an `Info`: the static-analysis facts the converter reads from the tree
 (`LIVE_VARS_IN`, `LIVE_VARS_OUT`, `DEFINED_VARS_IN`) and the two results of `_get_block_vars` that determine the
 generated code (`declared` = `scope_vars` = the `nonlocal` list = the state tuple, in order; `undefined`;
 `nouts`).  The annotation is *abstract*: `funcS` uses only `declared`, `undefined`, `nouts`; the theorems
 assume only inclusions between these and the liveness/definedness facts.  `annotB` turns a plain `Sem.Block`
-plus a position-indexed annotation into an `AStmt` program (and rejects programs outside the fragment), so the
-main theorem can also be read as "for every jump-free `Sem` program and every annotation".
+plus a position-indexed annotation into an `AStmt` program (and rejects programs outside the fragment: only
+`break`/`continue` are), so the main theorem can also be read as "for every jump-free `Sem` program and every
+annotation".
+
+Scoping of the pass-through statements: body, handlers and `finally` block of a `try`, and the block of a `with`,
+are part of the code of the function they occur in (the top-level function or a generated body function): they run
+in the same frame, their direct assignments count as direct assignments of that function (`Target.directS`).
 -/
 namespace Malt.Func
 open Malt.Sem
@@ -37,13 +45,15 @@ inductive AStmt where
   | ifS (i : Info) (c : Expr) (t e : List AStmt)
   | whileS (i : Info) (c : Expr) (b : List AStmt)
   | forS (i : Info) (x : Name) (it : Expr) (extra : Option Expr) (b : List AStmt)
+  | withS (i : Info) (tag : Int) (b : List AStmt)
+  | tryS (i : Info) (body : List AStmt) (handlers : List (Nat × List AStmt)) (fin : List AStmt)
   deriving Repr, Inhabited
 
 abbrev ABlock := List AStmt
 
 def AStmt.info : AStmt → Info
   | .assign i .. => i | .expr i .. => i | .pass i => i | .ret i .. => i | .raise i .. => i
-  | .ifS i .. => i | .whileS i .. => i | .forS i .. => i
+  | .ifS i .. => i | .whileS i .. => i | .forS i .. => i | .withS i .. => i | .tryS i .. => i
 
 mutual
 /-- The underlying `Malt.Sem` program. -/
@@ -56,9 +66,14 @@ def eraseS : AStmt → Stmt
   | .ifS _ c t e => .ifS c (eraseB t) (eraseB e)
   | .whileS _ c b => .whileS c (eraseB b)
   | .forS _ x it extra b => .forS x it extra (eraseB b)
+  | .withS _ tag b => .withS tag (eraseB b)
+  | .tryS _ b hs f => .tryS (eraseB b) (eraseH hs) (eraseB f)
 def eraseB : List AStmt → Block
   | [] => []
   | s :: r => eraseS s :: eraseB r
+def eraseH : List (Nat × List AStmt) → List (Nat × Block)
+  | [] => []
+  | (t, b) :: r => (t, eraseB b) :: eraseH r
 end
 
 mutual
@@ -69,17 +84,42 @@ def asgS : AStmt → List Name
   | .ifS _ _ t e => asgB t ++ asgB e
   | .whileS _ _ b => asgB b
   | .forS _ x _ _ b => x :: asgB b
+  | .withS _ _ b => asgB b
+  | .tryS _ b hs f => asgB b ++ (asgH hs ++ asgB f)
   | _ => []
 def asgB : List AStmt → List Name
   | [] => []
   | s :: r => asgS s ++ asgB r
+def asgH : List (Nat × List AStmt) → List Name
+  | [] => []
+  | (_, b) :: r => asgB b ++ asgH r
+end
+
+mutual
+/-- Tags of the explicit `raise` statements, at any depth (an over-approximation of the user exceptions a
+statement may end with: what a `try` catches is not subtracted). -/
+def raisesS : AStmt → List Nat
+  | .raise _ t => [t]
+  | .ifS _ _ t e => raisesB t ++ raisesB e
+  | .whileS _ _ b => raisesB b
+  | .forS _ _ _ _ b => raisesB b
+  | .withS _ _ b => raisesB b
+  | .tryS _ b hs f => raisesB b ++ (raisesH hs ++ raisesB f)
+  | _ => []
+def raisesB : List AStmt → List Nat
+  | [] => []
+  | s :: r => raisesS s ++ raisesB r
+def raisesH : List (Nat × List AStmt) → List Nat
+  | [] => []
+  | (_, b) :: r => raisesB b ++ raisesH r
 end
 
 def undefs (us : List Name) : TBlock := us.map .undefAssign
 
 mutual
 /-- The three templates of `visit_If`/`visit_While`/`visit_For`: the `Undefined` pre-assignments followed by the
-operator call; the bodies become generated functions declaring `declared` nonlocal. -/
+operator call; the bodies become generated functions declaring `declared` nonlocal.  `with` and `try` stay in
+place (generic traversal: only their blocks are rewritten). -/
 def funcS : AStmt → TBlock
   | .assign _ x e => [.assign x e]
   | .expr _ e => [.expr e]
@@ -89,9 +129,14 @@ def funcS : AStmt → TBlock
   | .ifS i c t e => undefs i.undefined ++ [.ifF c (funcB t) (funcB e) i.declared i.nouts]
   | .whileS i c b => undefs i.undefined ++ [.whileF c (funcB b) i.declared]
   | .forS i x it extra b => undefs i.undefined ++ [.forF x it extra (funcB b) i.declared]
+  | .withS _ tag b => [.withT tag (funcB b)]
+  | .tryS _ b hs f => [.tryT (funcB b) (funcH hs) (funcB f)]
 def funcB : List AStmt → TBlock
   | [] => []
   | s :: r => funcS s ++ funcB r
+def funcH : List (Nat × List AStmt) → List (Nat × TBlock)
+  | [] => []
+  | (t, b) :: r => (t, funcB b) :: funcH r
 end
 
 /-! ### Variables read by an expression -/
@@ -119,6 +164,108 @@ def blockIn : List AStmt → List Name → List Name
   | [], O => O
   | s :: _, _ => s.info.liveIn
 
+/-! ### Exception contexts
+
+What must be live when an exception is raised at a program point.  `hs` lists, innermost `try` first, the tags the
+enclosing `try` bodies catch together with the live-in of the handler that catches them; `other` is what must be
+live for anything else: an *implicit* exception (NameError / TypeError raised by an expression — never caught by
+`except E<tag>`) or a user exception no enclosing handler catches.  Both pass every enclosing `finally` block, so
+`other` is the live-in of the innermost enclosing `finally` (empty at the top level of the function: an escaping
+exception is observed only by its type and the log).
+
+This mirrors what the pinned CFG gives: only an explicit `raise` is wired to handlers (`K.get (.user t) ⊆ liveIn`
+is required at `raise t` statements only), while a `finally` whose block reads variables requires those to be
+live at every statement under it that evaluates an expression — which the pinned liveness does not guarantee
+("the CFG does not wire raise to finally": such programs fall outside `LiveConsistent`, as the property text
+exempts them). -/
+structure ExcCtx where
+  hs : List (Nat × List Name) := []
+  other : List Name := []
+  deriving Repr, Inhabited
+
+def ExcCtx.top : ExcCtx := {}
+
+def ExcCtx.get (K : ExcCtx) : Exc → List Name
+  | .user t => match K.hs.find? (fun h => h.1 == t) with
+      | some h => h.2
+      | none => K.other
+  | _ => K.other
+
+def hsAll : List (Nat × List Name) → List Name
+  | [] => []
+  | (_, l) :: r => l ++ hsAll r
+
+/-- Everything some exception may need. -/
+def ExcCtx.all (K : ExcCtx) : List Name := K.other ++ hsAll K.hs
+
+/-- Context of a handler body / of anything whose exceptions go to a `finally` with live-in `Fi` first. -/
+def ExcCtx.toFin (Fi : List Name) : ExcCtx := { hs := [], other := Fi }
+
+/-- The handler table of a `try`: tag ↦ live-in of the handler block (continuing with the `finally` live-in `Fi`). -/
+def handlerIns (Fi : List Name) : List (Nat × List AStmt) → List (Nat × List Name)
+  | [] => []
+  | (t, b) :: r => (t, blockIn b Fi) :: handlerIns Fi r
+
+/-! ### Variables read, and the restriction of an annotation to a set of variables
+
+A `finally` block is annotated once, for its *normal* continuation.  When it runs with a pending exception, what the
+simulation needs at the raise point is not its whole live-in (which also carries everything live after the `try`
+through the block) but only the part of it inside `S = reads(finally) ∪ K.all`: restricting every live set of a
+consistent annotation to a set `S ⊇ reads` gives a consistent annotation again (`Proofs/FuncRestrict.lean`), for the
+continuation restricted to `S`. -/
+def fl (S l : List Name) : List Name := l.filter (fun x => S.contains x)
+
+def Info.restrict (S : List Name) (i : Info) : Info := { i with liveIn := fl S i.liveIn, liveOut := fl S i.liveOut }
+
+mutual
+def restrictS (S : List Name) : AStmt → AStmt
+  | .assign i x e => .assign (i.restrict S) x e
+  | .expr i e => .expr (i.restrict S) e
+  | .pass i => .pass (i.restrict S)
+  | .ret i e => .ret (i.restrict S) e
+  | .raise i t => .raise (i.restrict S) t
+  | .ifS i c t e => .ifS (i.restrict S) c (restrictB S t) (restrictB S e)
+  | .whileS i c b => .whileS (i.restrict S) c (restrictB S b)
+  | .forS i x it extra b => .forS (i.restrict S) x it extra (restrictB S b)
+  | .withS i tag b => .withS (i.restrict S) tag (restrictB S b)
+  | .tryS i b hs f => .tryS (i.restrict S) (restrictB S b) (restrictH S hs) (restrictB S f)
+def restrictB (S : List Name) : List AStmt → List AStmt
+  | [] => []
+  | s :: r => restrictS S s :: restrictB S r
+def restrictH (S : List Name) : List (Nat × List AStmt) → List (Nat × List AStmt)
+  | [] => []
+  | (t, b) :: r => (t, restrictB S b) :: restrictH S r
+end
+
+mutual
+/-- Variables read by the expressions of a statement, at any depth. -/
+def readsS : AStmt → List Name
+  | .assign _ _ e => vars e
+  | .expr _ e => vars e
+  | .ret _ e => varsO e
+  | .ifS _ c t e => vars c ++ (readsB t ++ readsB e)
+  | .whileS _ c b => vars c ++ readsB b
+  | .forS _ _ it extra b => vars it ++ (varsO extra ++ readsB b)
+  | .withS _ _ b => readsB b
+  | .tryS _ b hs f => readsB b ++ (readsH hs ++ readsB f)
+  | _ => []
+def readsB : List AStmt → List Name
+  | [] => []
+  | s :: r => readsS s ++ readsB r
+def readsH : List (Nat × List AStmt) → List Name
+  | [] => []
+  | (_, b) :: r => readsB b ++ readsH r
+end
+
+def ExcCtx.filt (S : List Name) (K : ExcCtx) : ExcCtx :=
+  { hs := K.hs.map (fun h => (h.1, fl S h.2)), other := fl S K.other }
+
+/-- What must be live where an exception may be raised that goes to the `finally` block `f` of a `try` with
+live-out `O` in context `K`: the part of the block's live-in that the block itself reads or an enclosing handler /
+`finally` needs. -/
+def finExcIn (K : ExcCtx) (f : List AStmt) (O : List Name) : List Name :=
+  fl (readsB f ++ K.all) (blockIn f (O ++ K.all))
+
 /-! ### `LiveConsistent`: a structured post-fixed point of the liveness equations
 
 * simple statement: `liveIn ⊇ reads ∪ (liveOut \ writes)`;
@@ -128,49 +275,89 @@ def blockIn : List AStmt → List Name → List Name
 * `for x`: `liveIn ⊇ reads(iter) ∪ reads(extra test) ∪ liveOut ∪ (liveIn(body) \ {x})`, the body continues with
   `liveIn(for)` (back edge).  Note `liveIn ⊇ liveOut` **including the target `x`**: the loop may run zero
   times (this is the inclusion the pinned `liveness.py` violates: it kills the target on the exit edge).
+* `with`: `liveIn ⊇ liveIn(body)`, the body continues with `liveOut(with)`;
+* `try`: the `finally` block continues with `C = liveOut(try) ∪ K.all` (after it, execution goes on normally or the
+  pending exception propagates); handlers and body continue with `Fi = liveIn(finally)`; exceptions raised in a
+  handler go to the `finally` with a pending exception, which needs `Fx = finExcIn` (the part of `Fi` that the block
+  reads or `K` needs — `ExcCtx.toFin Fx`); in the body, `raise t` goes to the first handler for `t` (`handlerIns`),
+  anything else to the `finally` (`Fx`); `liveIn ⊇ liveIn(body)`.
+* exceptions, in context `K`: a statement that evaluates an expression has `liveIn ⊇ K.other`; `raise t` has
+  `liveIn ⊇ K.get (user t)`; a functionalised statement has `liveIn ∪ liveOut ⊇ K.get (user t)` for every `raise t`
+  inside it (the raise leaves the generated function: what the handler needs must not be frame-local).
 -/
+def raiseOK (K : ExcCtx) (i : Info) (ts : List Nat) : Prop :=
+  ∀ t ∈ ts, K.get (.user t) ⊆ i.liveIn ++ i.liveOut
+
 mutual
-def LiveS : AStmt → Prop
-  | .assign i x e => vars e ⊆ i.liveIn ∧ i.liveOut.filter (fun y => y != x) ⊆ i.liveIn
-  | .expr i e => vars e ⊆ i.liveIn ∧ i.liveOut ⊆ i.liveIn
-  | .pass i => i.liveOut ⊆ i.liveIn
-  | .ret i e => varsO e ⊆ i.liveIn
-  | .raise _ _ => True
-  | .ifS i c t e => vars c ⊆ i.liveIn ∧ blockIn t i.liveOut ⊆ i.liveIn ∧ blockIn e i.liveOut ⊆ i.liveIn ∧
-      LiveB t i.liveOut ∧ LiveB e i.liveOut
-  | .whileS i c b => vars c ⊆ i.liveIn ∧ blockIn b i.liveIn ⊆ i.liveIn ∧ i.liveOut ⊆ i.liveIn ∧ LiveB b i.liveIn
-  | .forS i x it extra b => vars it ⊆ i.liveIn ∧ varsO extra ⊆ i.liveIn ∧ i.liveOut ⊆ i.liveIn ∧
-      (blockIn b i.liveIn).filter (fun y => y != x) ⊆ i.liveIn ∧ LiveB b i.liveIn
-/-- `LiveB b O`: block `b` is consistently annotated when `O` is live after it. -/
-def LiveB : List AStmt → List Name → Prop
-  | [], _ => True
-  | s :: r, O => LiveS s ∧ blockIn r O ⊆ s.info.liveOut ∧ LiveB r O
+def LiveS : ExcCtx → AStmt → Prop
+  | K, .assign i x e => vars e ⊆ i.liveIn ∧ i.liveOut.filter (fun y => y != x) ⊆ i.liveIn ∧ K.other ⊆ i.liveIn
+  | K, .expr i e => vars e ⊆ i.liveIn ∧ i.liveOut ⊆ i.liveIn ∧ K.other ⊆ i.liveIn
+  | _, .pass i => i.liveOut ⊆ i.liveIn
+  | K, .ret i e => varsO e ⊆ i.liveIn ∧ K.other ⊆ i.liveIn
+  | K, .raise i t => K.get (.user t) ⊆ i.liveIn
+  | K, .ifS i c t e => vars c ⊆ i.liveIn ∧ blockIn t i.liveOut ⊆ i.liveIn ∧ blockIn e i.liveOut ⊆ i.liveIn ∧
+      LiveB K t i.liveOut ∧ LiveB K e i.liveOut ∧ K.other ⊆ i.liveIn ∧ raiseOK K i (raisesB t ++ raisesB e)
+  | K, .whileS i c b => vars c ⊆ i.liveIn ∧ blockIn b i.liveIn ⊆ i.liveIn ∧ i.liveOut ⊆ i.liveIn ∧ LiveB K b i.liveIn ∧
+      K.other ⊆ i.liveIn ∧ raiseOK K i (raisesB b)
+  | K, .forS i x it extra b => vars it ⊆ i.liveIn ∧ varsO extra ⊆ i.liveIn ∧ i.liveOut ⊆ i.liveIn ∧
+      (blockIn b i.liveIn).filter (fun y => y != x) ⊆ i.liveIn ∧ LiveB K b i.liveIn ∧
+      K.other ⊆ i.liveIn ∧ raiseOK K i (raisesB b)
+  | K, .withS i _ b => blockIn b i.liveOut ⊆ i.liveIn ∧ LiveB K b i.liveOut
+  | K, .tryS i b hs f =>
+      LiveB K f (i.liveOut ++ K.all) ∧
+      LiveH (ExcCtx.toFin (finExcIn K f i.liveOut)) hs (blockIn f (i.liveOut ++ K.all)) ∧
+      LiveB { hs := handlerIns (blockIn f (i.liveOut ++ K.all)) hs, other := finExcIn K f i.liveOut } b
+        (blockIn f (i.liveOut ++ K.all)) ∧
+      blockIn b (blockIn f (i.liveOut ++ K.all)) ⊆ i.liveIn
+/-- `LiveB K b O`: block `b` is consistently annotated when `O` is live after it, in exception context `K`. -/
+def LiveB : ExcCtx → List AStmt → List Name → Prop
+  | _, [], _ => True
+  | K, s :: r, O => LiveS K s ∧ blockIn r O ⊆ s.info.liveOut ∧ LiveB K r O
+def LiveH : ExcCtx → List (Nat × List AStmt) → List Name → Prop
+  | _, [], _ => True
+  | K, (_, b) :: r, O => LiveB K b O ∧ LiveH K r O
 end
 
-/-- The liveness annotation of program `p` (with `O` live at its end) is consistent. -/
-def LiveConsistent (p : ABlock) (O : List Name) : Prop := LiveB p O
+/-- The liveness annotation of program `p` (with `O` live at its end) is consistent.  At the top level of the
+function an escaping exception needs nothing live (`ExcCtx.top`). -/
+def LiveConsistent (p : ABlock) (O : List Name) : Prop := LiveB ExcCtx.top p O
 
 def subB (A B : List Name) : Bool := A.all (fun x => B.contains x)
 
+def raiseOKb (K : ExcCtx) (i : Info) (ts : List Nat) : Bool :=
+  ts.all (fun t => subB (K.get (.user t)) (i.liveIn ++ i.liveOut))
+
 mutual
-def liveS : AStmt → Bool
-  | .assign i x e => subB (vars e) i.liveIn && subB (i.liveOut.filter (fun y => y != x)) i.liveIn
-  | .expr i e => subB (vars e) i.liveIn && subB i.liveOut i.liveIn
-  | .pass i => subB i.liveOut i.liveIn
-  | .ret i e => subB (varsO e) i.liveIn
-  | .raise _ _ => true
-  | .ifS i c t e => subB (vars c) i.liveIn && subB (blockIn t i.liveOut) i.liveIn && subB (blockIn e i.liveOut) i.liveIn &&
-      liveB t i.liveOut && liveB e i.liveOut
-  | .whileS i c b => subB (vars c) i.liveIn && subB (blockIn b i.liveIn) i.liveIn && subB i.liveOut i.liveIn && liveB b i.liveIn
-  | .forS i x it extra b => subB (vars it) i.liveIn && subB (varsO extra) i.liveIn && subB i.liveOut i.liveIn &&
-      subB ((blockIn b i.liveIn).filter (fun y => y != x)) i.liveIn && liveB b i.liveIn
-def liveB : List AStmt → List Name → Bool
-  | [], _ => true
-  | s :: r, O => liveS s && subB (blockIn r O) s.info.liveOut && liveB r O
+def liveS : ExcCtx → AStmt → Bool
+  | K, .assign i x e => subB (vars e) i.liveIn && subB (i.liveOut.filter (fun y => y != x)) i.liveIn && subB K.other i.liveIn
+  | K, .expr i e => subB (vars e) i.liveIn && subB i.liveOut i.liveIn && subB K.other i.liveIn
+  | _, .pass i => subB i.liveOut i.liveIn
+  | K, .ret i e => subB (varsO e) i.liveIn && subB K.other i.liveIn
+  | K, .raise i t => subB (K.get (.user t)) i.liveIn
+  | K, .ifS i c t e => subB (vars c) i.liveIn && subB (blockIn t i.liveOut) i.liveIn && subB (blockIn e i.liveOut) i.liveIn &&
+      liveB K t i.liveOut && liveB K e i.liveOut && subB K.other i.liveIn && raiseOKb K i (raisesB t ++ raisesB e)
+  | K, .whileS i c b => subB (vars c) i.liveIn && subB (blockIn b i.liveIn) i.liveIn && subB i.liveOut i.liveIn &&
+      liveB K b i.liveIn && subB K.other i.liveIn && raiseOKb K i (raisesB b)
+  | K, .forS i x it extra b => subB (vars it) i.liveIn && subB (varsO extra) i.liveIn && subB i.liveOut i.liveIn &&
+      subB ((blockIn b i.liveIn).filter (fun y => y != x)) i.liveIn && liveB K b i.liveIn &&
+      subB K.other i.liveIn && raiseOKb K i (raisesB b)
+  | K, .withS i _ b => subB (blockIn b i.liveOut) i.liveIn && liveB K b i.liveOut
+  | K, .tryS i b hs f =>
+      liveB K f (i.liveOut ++ K.all) &&
+      liveH (ExcCtx.toFin (finExcIn K f i.liveOut)) hs (blockIn f (i.liveOut ++ K.all)) &&
+      liveB { hs := handlerIns (blockIn f (i.liveOut ++ K.all)) hs, other := finExcIn K f i.liveOut } b
+        (blockIn f (i.liveOut ++ K.all)) &&
+      subB (blockIn b (blockIn f (i.liveOut ++ K.all))) i.liveIn
+def liveB : ExcCtx → List AStmt → List Name → Bool
+  | _, [], _ => true
+  | K, s :: r, O => liveS K s && subB (blockIn r O) s.info.liveOut && liveB K r O
+def liveH : ExcCtx → List (Nat × List AStmt) → List Name → Bool
+  | _, [], _ => true
+  | K, (_, b) :: r, O => liveB K b O && liveH K r O
 end
 
 /-- Executable checker for `LiveConsistent` (run by the harness on the REAL `LIVE_VARS_IN/OUT`). -/
-def liveConsistent (p : ABlock) (O : List Name) : Bool := liveB p O
+def liveConsistent (p : ABlock) (O : List Name) : Bool := liveB ExcCtx.top p O
 
 /-! ### Finding class `for_target_live_across_zero_trip`
 The one inclusion of `LiveConsistent` that the pinned `liveness.py` violates: the loop header kills the `for`
@@ -180,21 +367,26 @@ def forTargetZeroTripS : AStmt → Bool
   | .forS i x _ _ b => (i.liveOut.contains x && !i.liveIn.contains x) || forTargetZeroTripB b
   | .ifS _ _ t e => forTargetZeroTripB t || forTargetZeroTripB e
   | .whileS _ _ b => forTargetZeroTripB b
+  | .withS _ _ b => forTargetZeroTripB b
+  | .tryS _ b hs f => forTargetZeroTripB b || forTargetZeroTripH hs || forTargetZeroTripB f
   | _ => false
 def forTargetZeroTripB : List AStmt → Bool
   | [] => false
   | s :: r => forTargetZeroTripS s || forTargetZeroTripB r
+def forTargetZeroTripH : List (Nat × List AStmt) → Bool
+  | [] => false
+  | (_, b) :: r => forTargetZeroTripB b || forTargetZeroTripH r
 end
 
 /-! ### What the real pass guarantees about `declared` / `undefined` (`_get_block_vars`)
 
-`DeclS`: for every compound statement, with `modified` = the names its bodies may assign,
+`DeclS`: for every functionalised statement, with `modified` = the names its bodies may assign,
 * `declared ⊇ {v ∈ modified | v ∈ liveIn ∨ v ∈ liveOut}`   (`_get_block_basic_vars`, simple names, no nonlocal/global),
 * `undefined ⊆ modified`                                    (`possibly_undefined = modified - defined_in - …`).
 -/
 def liveEither (i : Info) (v : Name) : Bool := i.liveIn.contains v || i.liveOut.contains v
 
-/-- `modified` of a compound statement as `_get_block_vars` receives it. -/
+/-- `modified` of a functionalised statement as `_get_block_vars` receives it. -/
 def AStmt.modified : AStmt → List Name
   | .ifS _ _ t e => asgB t ++ asgB e
   | .whileS _ _ b => asgB b
@@ -206,10 +398,15 @@ def DeclS : AStmt → Prop
   | .ifS i _ t e => (asgB t ++ asgB e).filter (liveEither i) ⊆ i.declared ∧ i.undefined ⊆ asgB t ++ asgB e ∧ DeclB t ∧ DeclB e
   | .whileS i _ b => (asgB b).filter (liveEither i) ⊆ i.declared ∧ i.undefined ⊆ asgB b ∧ DeclB b
   | .forS i x _ _ b => (x :: asgB b).filter (liveEither i) ⊆ i.declared ∧ i.undefined ⊆ x :: asgB b ∧ DeclB b
+  | .withS _ _ b => DeclB b
+  | .tryS _ b hs f => DeclB b ∧ DeclH hs ∧ DeclB f
   | _ => True
 def DeclB : List AStmt → Prop
   | [] => True
   | s :: r => DeclS s ∧ DeclB r
+def DeclH : List (Nat × List AStmt) → Prop
+  | [] => True
+  | (_, b) :: r => DeclB b ∧ DeclH r
 end
 
 mutual
@@ -217,18 +414,24 @@ def declS : AStmt → Bool
   | .ifS i _ t e => subB ((asgB t ++ asgB e).filter (liveEither i)) i.declared && subB i.undefined (asgB t ++ asgB e) && declB t && declB e
   | .whileS i _ b => subB ((asgB b).filter (liveEither i)) i.declared && subB i.undefined (asgB b) && declB b
   | .forS i x _ _ b => subB ((x :: asgB b).filter (liveEither i)) i.declared && subB i.undefined (x :: asgB b) && declB b
+  | .withS _ _ b => declB b
+  | .tryS _ b hs f => declB b && declH hs && declB f
   | _ => true
 def declB : List AStmt → Bool
   | [] => true
   | s :: r => declS s && declB r
+def declH : List (Nat × List AStmt) → Bool
+  | [] => true
+  | (_, b) :: r => declB b && declH r
 end
 
 /-! ### Definedness: `undefined` only names variables that are really unbound on entry
 
 `DefB D b`: `D` over-approximates the variables that may be bound when `b` starts (nothing is ever unbound in
 this fragment, so the set only grows: after `s` it is `D ∪ assigned(s)`; a loop body may also see what earlier
-iterations assigned).  For every compound statement: `definedIn ⊇ D` (the real `DEFINED_VARS_IN` is a
-may-analysis) and `undefined ∩ definedIn = ∅` (`modified - defined_in`).
+iterations assigned; a handler starts after any part of the `try` body, the `finally` block after body and
+handlers).  For every functionalised statement: `definedIn ⊇ D` (the real `DEFINED_VARS_IN` is a may-analysis) and
+`undefined ∩ definedIn = ∅` (`modified - defined_in`).
 -/
 def disjB (A B : List Name) : Bool := A.all (fun x => !B.contains x)
 
@@ -237,10 +440,15 @@ def DefS : List Name → AStmt → Prop
   | D, .ifS i _ t e => D ⊆ i.definedIn ∧ (∀ u ∈ i.undefined, u ∉ i.definedIn) ∧ DefB D t ∧ DefB D e
   | D, .whileS i _ b => D ⊆ i.definedIn ∧ (∀ u ∈ i.undefined, u ∉ i.definedIn) ∧ DefB (D ++ asgB b) b
   | D, .forS i x _ _ b => D ⊆ i.definedIn ∧ (∀ u ∈ i.undefined, u ∉ i.definedIn) ∧ DefB (D ++ (x :: asgB b)) b
+  | D, .withS _ _ b => DefB D b
+  | D, .tryS _ b hs f => DefB D b ∧ DefH (D ++ asgB b) hs ∧ DefB (D ++ asgB b ++ asgH hs) f
   | _, _ => True
 def DefB : List Name → List AStmt → Prop
   | _, [] => True
   | D, s :: r => DefS D s ∧ DefB (D ++ asgS s) r
+def DefH : List Name → List (Nat × List AStmt) → Prop
+  | _, [] => True
+  | D, (_, b) :: r => DefB D b ∧ DefH D r
 end
 
 mutual
@@ -248,10 +456,15 @@ def defS : List Name → AStmt → Bool
   | D, .ifS i _ t e => subB D i.definedIn && disjB i.undefined i.definedIn && defB D t && defB D e
   | D, .whileS i _ b => subB D i.definedIn && disjB i.undefined i.definedIn && defB (D ++ asgB b) b
   | D, .forS i x _ _ b => subB D i.definedIn && disjB i.undefined i.definedIn && defB (D ++ (x :: asgB b)) b
+  | D, .withS _ _ b => defB D b
+  | D, .tryS _ b hs f => defB D b && defH (D ++ asgB b) hs && defB (D ++ asgB b ++ asgH hs) f
   | _, _ => true
 def defB : List Name → List AStmt → Bool
   | _, [] => true
   | D, s :: r => defS D s && defB (D ++ asgS s) r
+def defH : List Name → List (Nat × List AStmt) → Bool
+  | _, [] => true
+  | D, (_, b) :: r => defB D b && defH D r
 end
 
 /-! ### Jump-freeness: `return` only at the top level of the function body -/
@@ -261,17 +474,25 @@ def noRetS : AStmt → Bool
   | .ifS _ _ t e => noRetB t && noRetB e
   | .whileS _ _ b => noRetB b
   | .forS _ _ _ _ b => noRetB b
+  | .withS _ _ b => noRetB b
+  | .tryS _ b hs f => noRetB b && noRetH hs && noRetB f
   | _ => true
 def noRetB : List AStmt → Bool
   | [] => true
   | s :: r => noRetS s && noRetB r
+def noRetH : List (Nat × List AStmt) → Bool
+  | [] => true
+  | (_, b) :: r => noRetB b && noRetH r
 end
 
-/-- A top-level statement: it may be a `return`, but contains none. -/
+/-- A top-level statement: it may be a `return`, but contains none (also not inside `with`/`try` blocks: the
+lowered return is the last top-level statement). -/
 def retTopS : AStmt → Bool
   | .ifS _ _ t e => noRetB t && noRetB e
   | .whileS _ _ b => noRetB b
   | .forS _ _ _ _ b => noRetB b
+  | .withS _ _ b => noRetB b
+  | .tryS _ b hs f => noRetB b && noRetH hs && noRetB f
   | _ => true
 
 def retTopB : List AStmt → Bool
@@ -290,7 +511,7 @@ def funcHyp (D : List Name) (p : ABlock) (O : List Name) : Bool :=
 
 /-! ### Additional facts about `_get_block_vars` used by the functional semantics (C02)
 
-For every compound statement: the state tuple has no duplicates (`scope_vars` is built from a set), contains
+For every functionalised statement: the state tuple has no duplicates (`scope_vars` is built from a set), contains
 only modified names (`basic_scope_vars ⊆ modified`), and — for a conditional — the entries after the first
 `nouts` are not live after the statement (`input_only = basic_scope_vars & live_in - live_out` is sorted last).
 -/
@@ -304,10 +525,15 @@ def HypFS : AStmt → Prop
       HypFB t ∧ HypFB e
   | .whileS i _ b => i.declared ⊆ asgB b ∧ HypFB b
   | .forS i x _ _ b => i.declared ⊆ x :: asgB b ∧ HypFB b
+  | .withS _ _ b => HypFB b
+  | .tryS _ b hs f => HypFB b ∧ HypFH hs ∧ HypFB f
   | _ => True
 def HypFB : List AStmt → Prop
   | [] => True
   | s :: r => HypFS s ∧ HypFB r
+def HypFH : List (Nat × List AStmt) → Prop
+  | [] => True
+  | (_, b) :: r => HypFB b ∧ HypFH r
 end
 
 mutual
@@ -316,16 +542,21 @@ def hypFS : AStmt → Bool
       hypFB t && hypFB e
   | .whileS i _ b => subB i.declared (asgB b) && hypFB b
   | .forS i x _ _ b => subB i.declared (x :: asgB b) && hypFB b
+  | .withS _ _ b => hypFB b
+  | .tryS _ b hs f => hypFB b && hypFH hs && hypFB f
   | _ => true
 def hypFB : List AStmt → Bool
   | [] => true
   | s :: r => hypFS s && hypFB r
+def hypFH : List (Nat × List AStmt) → Bool
+  | [] => true
+  | (_, b) :: r => hypFB b && hypFH r
 end
 
 /-! ### Position-indexed annotations of plain `Sem` programs
 `Ann` maps a position to an `Info`.  For a *statement* annotation `a`: `a []` is the statement's own info and
 `fun p => a (j :: p)` annotates its `j`-th sub-block; for a *block* annotation `A`, `fun p => A (k :: p)`
-annotates its `k`-th statement. -/
+annotates its `k`-th statement.  Sub-blocks of a `try`: 0 = body, 1 = finally, 2 + j = the j-th handler. -/
 abbrev Ann := List Nat → Info
 
 mutual
@@ -346,12 +577,21 @@ def annotS (a : Ann) : Stmt → Option AStmt
       | none => none)
   | .brk => none
   | .cont => none
-  | .tryS .. => none
-  | .withS .. => none
+  | .tryS b hs f => (match annotB (fun p => a (0 :: p)) 0 b, annotH a 2 hs, annotB (fun p => a (1 :: p)) 0 f with
+      | some b', some hs', some f' => some (.tryS (a []) b' hs' f')
+      | _, _, _ => none)
+  | .withS tag b => (match annotB (fun p => a (0 :: p)) 0 b with
+      | some b' => some (.withS (a []) tag b')
+      | none => none)
 def annotB (A : Ann) (k : Nat) : Block → Option (List AStmt)
   | [] => some []
   | s :: r => (match annotS (fun p => A (k :: p)) s, annotB A (k+1) r with
       | some s', some r' => some (s' :: r')
+      | _, _ => none)
+def annotH (a : Ann) (j : Nat) : List (Nat × Block) → Option (List (Nat × List AStmt))
+  | [] => some []
+  | (t, b) :: r => (match annotB (fun p => a (j :: p)) 0 b, annotH a (j+1) r with
+      | some b', some r' => some ((t, b') :: r')
       | _, _ => none)
 end
 
